@@ -794,6 +794,23 @@ class TransferManager(BaseManager):
             was received
         :param request: transfer request object for the given transfer
         """
+        if request.filesize is None:
+            # Without a file size the download can never be received or
+            # verified: refuse the request instead of starting the transfer
+            logger.warning(
+                "refusing transfer request without filesize for ticket %d and transfer : %s", request.ticket, transfer)
+            try:
+                await peer_connection.send_message(
+                    PeerTransferReply.Request(
+                        ticket=request.ticket,
+                        allowed=False,
+                        reason=FailReason.CANCELLED
+                    )
+                )
+            except ConnectionWriteError:
+                pass
+            return
+
         await transfer.state.initialize()
 
         transfer.filesize = request.filesize
